@@ -25,7 +25,7 @@ ASSUMPTIONS = [
     "prov:entity of a membership is not treated as single-valued (the library's documented multi-entity compatibility path, not claimed by C05 either): merged memberships may hold several members",
     "formal conflicts are generated on reference arguments and on clearly different times only (equal instants in different zones are not a disagreement for the library)",
 ]
-REQUIRED_CLASSES = {"all": ["merge:same_kind", "collision:cross_kind", "expected:conflict", "in_bundle_merge", "bundle.unified", "unified_again_after_edit"]}
+REQUIRED_CLASSES = {"all": ["merge:same_kind", "collision:cross_kind", "expected:conflict", "in_bundle_merge", "bundle.unified", "unified_again_after_edit", "absent_lookups_before_unified"]}
 
 OTHER_KIND = {"entity": "agent", "agent": "activity", "activity": "entity", "generation": "usage", "usage": "invalidation",
               "invalidation": "generation"}
@@ -41,7 +41,8 @@ def strategy_(draw):
     cols = draw(st.lists(st.tuples(st.integers(0, 30), st.sampled_from(["same", "same", "subset", "conflict", "kind", "kind"]),
                                    gen.attr_list("json", 3), st.sampled_from(gen.PREFIXES), st.integers(0, 5)),
                          min_size=0, max_size=4))
-    return dict(r, collisions=[list(c) for c in cols])
+    # read-only lookups of absent identifiers before unified(): a lookup must not change what unified() returns
+    return dict(r, collisions=[list(c) for c in cols], misses=draw(st.sampled_from([0, 0, 1, 2, 3])))
 
 
 def strategy(tier):
@@ -203,6 +204,14 @@ def check(case, ctx):
         ctx.count("expected:conflict")
     ctx.nontrivial(stats["same_kind"] > 0 or stats["cross_kind"] > 0)
     items = []
+    if case.get("misses"):
+        from prov.identifier import Namespace, QualifiedName
+        NA = Namespace("absentns", "http://absent.example/")
+        for c in [d] + list(d.bundles):
+            for i in range(case["misses"]):
+                if c.get_record(QualifiedName(NA, "nothing%d" % i)):
+                    items.append(_it("lookup_of_absent_identifier_found_something"))
+        ctx.count("absent_lookups_before_unified")
     before = snapshot(d)
     try:
         u = d.unified()
